@@ -67,4 +67,14 @@ IMinTo(s, k) == IF k = 1 THEN s[1] ELSE IMin(IMinTo(s, k - 1), s[k])
 RECURSIVE IPow(_, _)
 IPow(b, e) == IF e = 0 THEN 1 ELSE b * IPow(b, e - 1)
 RPow(p, e) == <<IPow(p[1], e), IPow(p[2], e)>>
+\* rational arithmetic that cancels common factors BEFORE multiplying (TLC integers are 32 bit)
+LAdd(p, q) == LET g == Gcd(p[2], q[2]) IN Norm(<<p[1] * (q[2] \div g) + q[1] * (p[2] \div g), (p[2] \div g) * q[2]>>)
+LSub(p, q) == LAdd(p, RNeg(q))
+LMul(p, q) == LET g1 == IF p[1] = 0 THEN 1 ELSE Gcd(IAbs(p[1]), q[2])
+                  g2 == IF q[1] = 0 THEN 1 ELSE Gcd(IAbs(q[1]), p[2])
+              IN  Norm(<<(p[1] \div g1) * (q[1] \div g2), (p[2] \div g2) * (q[2] \div g1)>>)
+LDiv(p, q) == LMul(p, RInv(q))
+LSq(p)     == LMul(p, p)
+RECURSIVE LPow(_, _)
+LPow(q, k) == IF k = 0 THEN ROne ELSE LMul(q, LPow(q, k - 1))
 =============================================================================
